@@ -213,6 +213,14 @@ pub fn gen(seed: u64, thorough: bool) {
         engine.condition.set_fperiod(fp);
         engine.condition.set_speed(rng.uniform(1.0, 4.0));
         engine.condition.set_beta(*rng.pick(&[0.0, 0.2]));
+        // the whole condition varies: the generator and the one-shot call must read the same settings
+        // (seeded change C02f: a setting applied by `synthesize` only)
+        engine.condition.set_volume(*rng.pick(&[0.0, -6.0, 3.0, 12.0, -20.0]));
+        engine.condition.set_additional_half_tone(*rng.pick(&[0.0, 0.0, 2.5, -3.0]));
+        engine.condition.set_alpha(*rng.pick(&[0.55, 0.55, 0.42, 0.0]));
+        engine.condition.set_msd_threshold(1, *rng.pick(&[0.5, 0.5, 0.2, 0.8]));
+        engine.condition.set_gv_weight(0, *rng.pick(&[1.0, 1.0, 0.5, 1.5]));
+        engine.condition.set_gv_weight(1, *rng.pick(&[1.0, 1.0, 0.0, 1.3]));
         let nlab = rng.range(1, 3);
         let start = rng.below(corpus.len() - nlab);
         let labels: Vec<String> = corpus[start..start + nlab].to_vec();
